@@ -810,6 +810,10 @@ def agStepGen (s : H) (j : Json) : R (H × Json × Json) := do
     let p ← jfield jnat j "p"; let c ← jfield jnat j "c"
     let s1 := s.setN p { s.n p with children := (s.n p).children ++ [c] }
     ok (s1.setN c { s1.n c with parents := (s1.n c).parents ++ [p] })
+  | "link1" =>
+    let p ← jfield jnat j "p"; let c ← jfield jnat j "c"
+    if (← jfield jstr j "side") == "child" then ok (s.setN p { s.n p with children := (s.n p).children ++ [c] })
+    else ok (s.setN c { s.n c with parents := (s.n c).parents ++ [p] })
   | "remove_node" => res (Gen.graph_remove_node s (← jfield jnat j "n"))
   | "add_attacker" =>
     let (s1, a) := s.allocA { name := ← jfield jstr j "name", entry_points := [], reached_attack_steps := [] }
